@@ -114,6 +114,7 @@ func (e *Engine) VerifyFunc(fn *ssa.Function, mode string) (rep *FuncReport) {
 			p.nonnil[v.T] = true
 		}
 	}
+	c.eng.aliasEnv(fn, env)
 	for _, fv := range fn.FreeVars {
 		v := c.symbolic(p, fv.Name(), fv.Type())
 		v.Origin = fv.Name()
@@ -209,6 +210,7 @@ func (e *Engine) VerifyFunc(fn *ssa.Function, mode string) (rep *FuncReport) {
 				renv["result"] = o.ret[i]
 			}
 		}
+		c.eng.aliasEnv(fn, renv)
 		if fc != nil {
 			c.runGhost(q, fc, "exit", renv, &entryHeap)
 			ec := &EvalCtx{c: c, p: q, env: renv, heap: &q.heap, old: &entryHeap, oldNow: entryNow, pkg: pkg, ghostOld: ghostEntry}
